@@ -38,7 +38,7 @@ use crate::drivers::CopyDriver;
 use crate::errors::{Result, XcpError};
 use crate::feedback::{StatusUpdate, StatusUpdater};
 use crate::operations::{CopyHandle, Operation, tree_walker};
-use crate::paths::lexists;
+use crate::paths::{lexists, same_entry};
 use libfs::{copy_file_offset, map_extents, merge_extents, next_sparse_segments, probably_sparse};
 
 // ********************************************************************** //
@@ -272,6 +272,11 @@ fn dispatch_worker(file_q: cbc::Receiver<Operation>, stats: &Arc<dyn StatusUpdat
                 if lexists(&to)? {
                     if config.no_clobber {
                         return Err(XcpError::DestinationExists("Destination file exists and --no-clobber is set.", to).into());
+                    }
+                    // The destination may be the source itself under
+                    // another spelling; removing it would destroy it.
+                    if same_entry(&from, &to)? {
+                        return Err(XcpError::DestinationExists("Source and destination are the same file.", to).into());
                     }
                     remove_file(&to)?;
                 }
